@@ -874,3 +874,39 @@ package pipeline
 //@     set nsig := nsig + 1
 //@   callee Load() (r)
 //@     pure
+
+// ---------------------------------------------------------------------------
+// streamEvent (C02 / C03 / C05 / C10): the event goes exactly one way - back to the
+// pool (refused by the input as already committed; result 0) or into the stream of
+// its source (or, with UseSpread, of SeqID mod processors) under the stream name it
+// carries.  The input is asked only after the stream name has been looked up:
+// PassEvent compares the event's offset with the saved offset of *its stream*.
+
+//@ func (*Pipeline).streamEvent
+//@   ghost looked bool = false
+//@   ghost nback int = 0
+//@   ghost nput int = 0
+//@   requires event != nil
+//@   ensures nback + nput == 1
+//@   ensures nback == 1 ==> result == 0
+//@   callee Dig(path) (n)
+//@     pure
+//@     set looked := true
+//@   callee AsString() (s)
+//@     pure
+//@   callee Load() (v)
+//@     pure
+//@     ensures v >= 1
+//@   callee PassEvent(e) (ok)
+//@     requires e == event && looked && nback == 0 && nput == 0
+//@     pure
+//@   callee back(e)
+//@     requires e == event && nback == 0 && nput == 0
+//@     pure
+//@     set nback := nback + 1
+//@   callee putEvent(sid, name, e) (seq)
+//@     requires e == event && name == event.streamName && nback == 0 && nput == 0
+//@     requires !p.useSpread ==> sid == event.SourceID
+//@     requires p.disableStreams ==> name == old(event.streamName)
+//@     pure
+//@     set nput := nput + 1
